@@ -56,6 +56,14 @@ int main(int argc, char **argv) {
         else if (fn == "argv" || fn == "argv_n") { bool term = fn == "argv"; char *p = blk(s, term); char **av = (char **)malloc(sizeof(char *) * (n ? n : 1)); int ac;
             if (term) ac = argvc_internal_split(p, av, (int)n); else ac = argvc_internal_split_n(p, (int)s.size(), av, (int)n);
             std::vector<long long> st; for (int i = 0; i < ac && i < n; ++i) st.push_back(av[i] - p); e.i("argc", ac).ints("starts", st).bytes("image", p, s.size()); free(av); free(p); }
+        else if (fn.size() > 7 && fn.compare(fn.size() - 7, 7, "_script") == 0) { std::string base = fn.substr(0, fn.size() - 7);
+            // the usual script loop: the caller walks a text line by line with strtok and hands every line to the dispatcher
+            char *p = blk(s, true); std::vector<std::string> lines, names;
+            for (char *ln = strtok(p, "\n"); ln; ln = strtok(0, "\n")) { lines.push_back(ln); h_calls = 0; h_name = ""; h_argv.clear(); int ret = -99;
+                if (base == "mshell") mshell_execute(ln, mtab_all, &ret); else if (base == "mshell_tables") mshell_tables_execute(ln, mtabs, &ret);
+                else if (base == "rshell") rshell_execute(ln, rtab_all, &ret, 0, 0, 0); else if (base == "rshell_tables") rshell_tables_execute(ln, rtabs, &ret, 0, 0); else { fprintf(stderr, "bad fn %s\n", fn.c_str()); exit(3); }
+                names.push_back(h_name); if (lines.size() > 200) break; }
+            e.raw("lines", toks_json(lines)).raw("names", toks_json(names)); free(p); }
         else if (fn.size() > 7 && fn.compare(fn.size() - 7, 7, "_nested") == 0) { std::string base = fn.substr(0, fn.size() - 7);
             char *p = blk(s, true); h_calls = 0; h_name = ""; h_argv.clear(); h_in_name = ""; h_in_argv.clear(); h_after.clear(); h_nest_fn = base; h_nest_line = a; h_depth = 0; int ret = -99; int rc;
             if (base == "mshell") rc = mshell_execute(p, mtab_all, &ret); else if (base == "mshell_tables") rc = mshell_tables_execute(p, mtabs, &ret);
